@@ -207,6 +207,14 @@ theorem reach_step (w w' : World) (op : Op) (hs : w.step op = some w') : Reach w
     · simp only [Option.map_eq_some_iff] at hs
       obtain ⟨i, _, e⟩ := hs; subst e; exact reach_runB w _
     · cases hs
+  | boptimize b =>
+    simp only [World.step, Option.map_eq_some_iff] at hs
+    obtain ⟨i, _, e⟩ := hs; subst e
+    refine reach_prims _ _ ?_
+    intro p hp
+    simp only [List.mem_map] at hp
+    obtain ⟨kc, _, e⟩ := hp
+    subst e; rfl
   | rnew cols =>
     simp only [World.step] at hs; cases hs
     exact reach_newRowSegs _ _ w
